@@ -50,7 +50,7 @@ MANIFEST = dict(
     "(for EVERY file without a quote character and EVERY option record in text mode load_simple_csv = load_csv), "
     "C14_simple_saved_table (saved tables whose cells contain neither delimiter nor quote), C14_simple_quote_cex. Closed forms: "
     "C14_strip_field / _positional (records = the table of str.strip()-ed names and cells; C14_strip_padded: strip removes exactly "
-    "the surrounding blanks), C14_strip_line_clean (strip_line=True is the identity on tables whose written lines have no outer "
+    "the surrounding blanks), C14_strip_line_clean / C14_strip_line_clean_cells (strip_line=True is the identity on tables whose written lines have no outer "
     "blank; C14_strip_line_cex shows it is not strip_field), C14_keep_empty_lines / _positional (skip_empty_lines=False: every "
     "row after the header yields a record, a blank line the record {first name: '', others: None}). "
     "The models are compared with the real code on real files for the whole option product (including every "
